@@ -34,6 +34,84 @@ CHECKS = {
         design_ref="DESIGN.md section 8 / C05",
         note=PYVC_NOTE,
     ),
+    "C06": dict(
+        engine="pyvc",
+        technique="contract-based deductive verification: loop invariant on cell_to_children, callee serialize by contract, VCs from the AST discharged by z3/cvc5 per (resolution, target) pair with face, segment and position symbolic",
+        category="proof",
+        text=("cell_to_children is verified against 'length = NCHILD and the k-th element is CHILDK(c,b,k)' with a loop invariant on its innermost loop (outer loops unrolled "
+              "completely), cell_to_parent against PARENT_ID for every level pair, both over the real bodies with deserialize/get_resolution inlined; over these contracts the "
+              "statement's clauses are discharged as lemmas for all positions at once: every listed child maps back to c (soundness), every cell whose ancestor is c is listed "
+              "(completeness, explicit index witness), no repetition, parents compose, descendants of a level>=1 cell are a contiguous run of ids, out-of-order requests raise. "
+              "Quick tier: child levels up to res+3 plus far pairs; thorough tier: every pair -1<=res<=b<=29."),
+        design_ref="DESIGN.md section 8 / C06",
+        note=PYVC_NOTE,
+    ),
+    "C08": dict(
+        engine="pyvc",
+        technique="contract-based deductive verification at two levels: compact's loops verified over the abstraction (mathematical ints, uninterpreted id functions, callees by contract, ghost coverage state, quantified invariants) and the merge/sibling lemmas plus callee contracts discharged at bit level from the real source",
+        category="proof",
+        text=("For an arbitrary probe cell x, 'some element of compact(X) is an ancestor of x' <=> 'some element of X is' is proved as postcondition of the real compact: outer and "
+              "inner loop invariants with ghost state (emitted-covers-exactly-what-was-consumed), the innermost sibling scan unrolled, is_first_child / get_stride / cell_to_parent / "
+              "get_resolution used through contracts, sorted(set(.)) through its builtin contract. The hypotheses used at loop level (merge lemma for 4, 5 and 12 siblings, sibling ids "
+              "at stride distance, callee contracts) are discharged at bit level for every resolution 0..29 with all positions symbolic."),
+        design_ref="DESIGN.md section 8 / C08",
+        note=PYVC_NOTE + " Loop level: ints mathematical, RES/FIRSTC/STRIDEF/PAR1/ANCX uninterpreted; builtin contract of sorted(set()) assumed.",
+    ),
+    "C09": dict(
+        engine="pyvc",
+        technique="contract-based deductive verification of the bit-level ordering lemmas (adjacency, order, transfer, key injectivity, stride/first-child contracts) under the sort key re-read from the source; loop level covered by a bounded native stand-in, labelled and not counted",
+        category="proof",
+        text=("Proved for every level r=0..29 and an arbitrary second cell, all positions at once, over the real key function, is_first_child, get_stride and cell_to_parent: siblings "
+              "are in key order at the tested stride, no cell unrelated to a sibling group sorts inside it, merging a group keeps the neighbours' order and unrelatedness, distinct cells "
+              "have distinct keys; plus the source-level obligation that the input is consumed only through sorted(set(cells)). These are the facts that make the sorted scan find every "
+              "complete group. NOT proved: the loop-level induction from these lemmas to 'no complete group is left' - it is covered by a bounded native check on a structured antichain "
+              "pool (bounded, never counted as discharged); canonicity additionally uses C08 and the paper lemma A10."),
+        design_ref="DESIGN.md section 8 / C09",
+        note=PYVC_NOTE + " Partial: lemmas proved, loop level bounded (stated in evidence.coverage.bounded).",
+    ),
+    "C10": dict(
+        engine="pyvc",
+        technique="contract-based deductive verification: uncompact's three loops verified with quantified invariants over ghost prefix sums (mathematical ints, callees by contract), callee contracts discharged at bit level",
+        category="proof",
+        text=("uncompact is verified for every list of valid ids of any length and every target: result length = sum of get_num_children, block k holds exactly the descendants of "
+              "cells[k] in cell_to_children order (the cell itself at its own level), index safety of every store, ValueError iff some cell is finer than the target (and then nothing is "
+              "returned), argument array unchanged at every exit. Callee contracts (get_resolution, get_num_children, cell_to_children) and the child-count facts are re-discharged at "
+              "bit level in the same check."),
+        design_ref="DESIGN.md section 8 / C10",
+        note=PYVC_NOTE + " Loop level: ints mathematical, RES/NCHILD/CHILD uninterpreted, PS ghost prefix sum.",
+    ),
+    "C16": dict(
+        engine="fxc+pyvc",
+        technique="frame/ownership contracts over the static call graph of the public API (sufficient condition: no write to shared state except structurally verified idempotent cache fills and a print-only counter), cache-index injectivity VCs by z3, failing schedules replayed with a line-level preemption harness",
+        category="proof",
+        text=("A sufficient frame condition for schedule independence is proved: for all 13 public functions, every store that can reach a module-level object is either a fill of a "
+              "verified cache (only written by its fill function, grows only by empty slots, filled slot returned unchanged, slot value a function of the key, slot index injective - z3) "
+              "or the CRS counter whose value only reaches print; every other write is to an object allocated in the activation. With the GIL this gives the sequential value under every "
+              "interleaving (meta-theorem A8, on paper). Violations are replayed as concrete schedules (call B run inline at a line boundary of call A)."),
+        design_ref="DESIGN.md sections 5, 8 / C16",
+        note="Trusted: fxc's may-alias/may-write abstraction (flow- and field-insensitive, annotation-based element immutability), meta-theorem A8, no dynamic attribute writes, CPython bytecode-line atomicity.",
+    ),
+    "C17": dict(
+        engine="fxc+pyvc",
+        technique="frame/ownership contracts (no parameter mutated, result fresh or immutable, shared writes only functionally keyed idempotent caches, scratch defined before use), cache-index injectivity VCs, sequence replay against fresh interpreters",
+        category="proof",
+        text=("For all 13 public functions: F1 no parameter (including option dicts and input lists) is mutated, F2 the result is allocated in the call or immutable and no argument "
+              "escapes into module state, F3 shared writes are verified cache fills keyed by a function of the arguments (slot index injective by z3) or the print-only counter, F4 any "
+              "remaining module-level scratch object is completely overwritten before it is read in every function that names it. With deterministic binary64 arithmetic this makes each "
+              "call a function of its arguments and import-time data (meta-theorem A9, on paper)."),
+        design_ref="DESIGN.md sections 5, 8 / C17",
+        note="Trusted: fxc's abstraction as for C16, meta-theorem A9, import-time tables never written after import is itself obligation F3/F5.",
+    ),
+    "C20": dict(
+        engine="pyvc",
+        technique="contract-based deductive verification of get_num_cells / get_num_children for symbolic resolutions, children-count lemma, complete concrete execution of cell_area over its finite domain",
+        category="proof",
+        text=("get_num_cells(r) = NCELLS(r) and get_num_children(a,b) = NCHILD(a,b) for symbolic a,b in -1..30 over the real bodies; NCELLS(a)*NCHILD(a,b) = NCELLS(b); "
+              "len(cell_to_children(c,b)) = NCHILD(res c, b) and no repetition via the C06 children contract (re-discharged here, including the world cell); cell_area(r)*count within "
+              "2 ulp of the sphere area and strictly decreasing for all r in 0..30 by executing the real float code on the whole finite domain."),
+        design_ref="DESIGN.md section 8 / C20",
+        note=PYVC_NOTE,
+    ),
 }
 
 
